@@ -244,6 +244,10 @@ func (s *httpServer) doPUB(w http.ResponseWriter, req *http.Request, ps httprout
 		if err != nil {
 			return nil, http_api.Err{400, "INVALID_DEFER"}
 		}
+		if di < 0 || di > int64(s.nsqd.getOpts().MaxReqTimeout/time.Millisecond) {
+			// checked in milliseconds: the conversion to time.Duration below can overflow
+			return nil, http_api.Err{400, "INVALID_DEFER"}
+		}
 		deferred = time.Duration(di) * time.Millisecond
 		if deferred < 0 || deferred > s.nsqd.getOpts().MaxReqTimeout {
 			return nil, http_api.Err{400, "INVALID_DEFER"}
